@@ -1,11 +1,11 @@
 SPECIFICATION Spec
 CONSTANTS
-  MaxOps = 2
-  Deviations <- DevOverUnread
+  MaxOps = 6
+  Deviations <- DevRcvKeeps
   JunkBytes <- MCJunk
   RegistryOps = FALSE
-  Receivers = FALSE
-  OpSet <- AllOps
+  Receivers = TRUE
+  OpSet <- RcvOps
 CHECK_DEADLOCK FALSE
 VIEW ViewNoHist
-INVARIANT FramesRight
+INVARIANT ReceiverIndependent
